@@ -177,7 +177,7 @@ fn program_candidates(case_prog: &Prog, script: &Script) -> Vec<(Prog, Script)> 
     };
     let push = |out: &mut Vec<(Prog, Script)>, p: Prog, mut s: Script| {
         let p = dce(p, &mut s);
-        if analyze(&p).is_ok() && p.nodes.len() < n + 2 {
+        if analyze(&p).is_ok() && p.nodes.len() < n + 2 && !crate::analysis::short_circuit_hazard(&p) {
             out.push((p, s));
         }
     };
